@@ -36,6 +36,7 @@ func runC01(c *Ctx) {
 	ruleDict(c, p, "C01.dict")
 	ruleRebuild(c, p, "C01.rebuild")
 	ruleForward(c, p)
+	ruleInferTables(c, p, "C01")
 	c.R.Assumptions = append(c.R.Assumptions,
 		"decided: append-only encoders, agreement of encoder / vectored writer / decoder on sequence and width of what is on the wire in every build configuration and revision, LowCardinality key width and per-width key columns, state/prepare forwarding of wrappers; not decided: equality of decoded and encoded values for all inputs")
 }
